@@ -300,7 +300,103 @@ func c01Seq(c *Ctx) {
 	c.Require("pools_nontrivial", 2)
 }
 
+// c01Episode: a pool served through a rebalancer that has just been through a failure-and-recovery episode of one server
+// (scripted meters, frozen clock). Afterwards the clock stands still and all servers are rated alike: after one warm-up
+// request nothing is due any more, the pool is not being changed, and every window of selections must be exact for the
+// weights then in force.
+func c01Episode(c *Ctx, i int, r *rand.Rand) {
+	freeze(baseTime.Add(time.Duration(r.Int64N(1e9))))
+	defer unfreeze()
+	var seen []string
+	recording := false
+	rr, err := roundrobin.New(http.HandlerFunc(func(w http.ResponseWriter, req *http.Request) {
+		if recording {
+			seen = append(seen, urlKey(req.URL))
+		}
+	}))
+	if err != nil {
+		c.Violation("build", err.Error(), nil)
+		return
+	}
+	backoff := pick(r, []time.Duration{time.Second, 10 * time.Second})
+	var meters []*scriptedMeter
+	rb, err := roundrobin.NewRebalancer(rr, roundrobin.RebalancerBackoff(backoff), roundrobin.RebalancerMeter(func() (roundrobin.Meter, error) {
+		m := &scriptedMeter{ready: true}
+		meters = append(meters, m)
+		return m, nil
+	}))
+	if err != nil {
+		c.Violation("build", err.Error(), nil)
+		return
+	}
+	n := 2 + r.IntN(4)
+	factor := pick(r, []int{1, 2, 2, 3, 10})
+	conf := make([]int, n)
+	urls := make([]*url.URL, n)
+	for k := range urls {
+		conf[k] = factor * (1 + r.IntN(4))
+		urls[k] = mustURL(sfmt("http://srv%d.test:80%d/p", k, k))
+		if err := rb.UpsertServer(urls[k], roundrobin.Weight(conf[k])); err != nil {
+			c.Violation("build", err.Error(), nil)
+			return
+		}
+	}
+	if len(meters) != n {
+		return // the rebalancer did not ask for one meter per server: not this check's concern
+	}
+	serve := func() { rb.ServeHTTP(httptest.NewRecorder(), httptest.NewRequest("GET", "http://client.test/x", nil)) }
+	bad := r.IntN(n)
+	for phase, steps := range []int{3 * (1 + r.IntN(4)), 3 * r.IntN(8)} { // a bad spell of 1-4 back-offs, then 0-7 back-offs of recovery
+		for q := 0; q < steps; q++ {
+			for k, m := range meters {
+				rt := 0.0
+				if phase == 0 && k == bad {
+					rt = 1
+				}
+				m.set(rt, true)
+			}
+			advance(backoff/3 + time.Duration(r.Int64N(int64(backoff)/10)))
+			serve()
+		}
+	}
+	for _, m := range meters {
+		m.set(0, true)
+	}
+	serve() // warm-up: the one adjustment that may be due
+	ref, ws := c01Reference(rr, urls)
+	c.Eval()
+	if ref.W == 0 || ref.W > 6000 {
+		return
+	}
+	total := 3*ref.W + r.IntN(ref.W+1)
+	recording = true
+	for q := 0; q < total; q++ {
+		serve()
+	}
+	recording = false
+	_, ws2 := c01Reference(rr, urls)
+	if sfmt("%v", ws) != sfmt("%v", ws2) || len(seen) != total {
+		c.Count("episode_stretches_undecided", 1)
+		return
+	}
+	c.Count("episode_stretches_checked", 1)
+	c.Count("selections_checked", int64(total))
+	c.Count("windows_checked", int64(total-ref.W+1))
+	if off, msg := slidingExact(seen, ref); off >= 0 {
+		c.Violation("seq/window", sfmt("pool with configured weights %v served through a rebalancer after a failure episode of server %d (back-off %v); clock standing still, all servers rated alike, weights in force %v (W=%d), unchanged over the stretch: %s", conf, bad, backoff, ws, ref.W, msg), map[string]any{"configured": conf, "weights": ws, "first_selections": seen[:min(len(seen), 40)]})
+		return
+	}
+	if ref.posCnt >= 2 {
+		c.Nontrivial(sfmt("episode/%v/%v/%d", conf, ws, bad))
+		c.Count("pools_nontrivial", 1)
+	}
+}
+
 func c01SeqCase(c *Ctx, i int, r *rand.Rand) {
+	if i%8 == 6 {
+		c01Episode(c, i, r)
+		return
+	}
 	{
 		weights := c01Weights(r)
 		if i == 0 {
